@@ -467,16 +467,22 @@ int SimulateMips::execute()
       if (((opcode >> 6) & 0x3ff) == 0 && (opcode & 0x3f) == 0x1a)
       {
         // div
-        hi = reg[rs] % reg[rt];
-        lo = reg[rs] / reg[rt];
+        if (reg[rt] != 0)
+        {
+          hi = reg[rs] % reg[rt];
+          lo = reg[rs] / reg[rt];
+        }
         break;
       }
 
       if (((opcode >> 6) & 0x3ff) == 0 && (opcode & 0x3f) == 0x1b)
       {
         // divu
-        hi = reg[rs] % reg[rt];
-        lo = reg[rs] / reg[rt];
+        if (reg[rt] != 0)
+        {
+          hi = reg[rs] % reg[rt];
+          lo = reg[rs] / reg[rt];
+        }
         break;
       }
 
